@@ -8,6 +8,12 @@ From Coq Require Import ZArith List.
 From Pnc Require Import Proofs_Header.
 From Pnc Require Import Proofs_Layout.
 From Pnc Require Import Proofs_Exec2.
+From Pnc Require Import Proofs_Reach3.
+From Pnc Require Import Proofs_Reach4.
+From Pnc Require Import Proofs_Reach3.
+From Pnc Require Import Proofs_Reach2.
+From Pnc Require Import Proofs_Reach2.
+From Pnc Require Import Proofs_Reach4.
 Set Printing Width 100.
 Set Printing Depth 100000.
 
@@ -263,6 +269,9 @@ Theorem C03_exec_close_open_same_header :
 Proof. exact @close_open_same_header. Qed.
 Print Assumptions C03_exec_close_open_same_header.
 
+(* ---- for EVERY reachable state of the API-level model (Proofs_Reach*.v) ---- *)
+(* all checks (the invariant itself) ---------------- *)
+(* every step of the interpreter (all 50 ops, SAll / SEach / SOne) preserves world_inv, under step_ok *)
 Theorem C03_exec_enddef_close_open :
   forall (w : Exec.world) (id : Z) (f : Exec.filest) (ea : Header.enddef_args)
            (w' : Exec.world) (mode : Z),
@@ -319,3 +328,287 @@ Theorem C03_exec_enddef_close_open :
              |})).
 Proof. exact @enddef_close_open. Qed.
 Print Assumptions C03_exec_enddef_close_open.
+
+(* the 46 ops that need no side condition at all (everything but create / open / junk / put) *)
+Theorem REACH_exec_step_preserves_inv :
+  forall (w : Exec.world) (s : Exec.step),
+         Proofs_Reach.world_inv w ->
+         Proofs_Reach.step_ok w s = true -> Proofs_Reach.world_inv (fst (Exec.exec_step w s)).
+Proof. exact @exec_step_preserves_inv. Qed.
+Print Assumptions REACH_exec_step_preserves_inv.
+
+(* world_inv holds after EVERY history of steps and world settings (strict flag, move unit >= 1) *)
+Theorem REACH_exec_step_preserves_inv_uncond :
+  forall (w : Exec.world) (o : Exec.op),
+         Proofs_Reach.world_inv w ->
+         op_uncond o = true ->
+         Proofs_Reach.world_inv (fst (Exec.exec_step w (Exec.SAll o))) /\
+         (forall r : Z, Proofs_Reach.world_inv (fst (Exec.exec_step w (Exec.SOne r o)))).
+Proof. exact @exec_step_preserves_inv_uncond. Qed.
+Print Assumptions REACH_exec_step_preserves_inv_uncond.
+
+(* the same for the plain fold of exec_step over a list of steps *)
+Theorem REACH_reachable_inv :
+  forall (n : Z) (cs : list cmd),
+         (1 <= n)%Z ->
+         run_ok (Exec.world0 n) cs = true -> Proofs_Reach.world_inv (run (Exec.world0 n) cs).
+Proof. exact @reachable_inv. Qed.
+Print Assumptions REACH_reachable_inv.
+
+(* the unconditional statement is FALSE of the model (create with clobber on the slot of an open file) *)
+Theorem REACH_reachable_inv_steps :
+  forall (n : Z) (steps : list Exec.step),
+         (1 <= n)%Z ->
+         run_ok (Exec.world0 n) (map CStep steps) = true ->
+         Proofs_Reach.world_inv
+           (fst
+              (fold_left
+                 (fun (acc : Exec.world * list Exec.obs) (s : Exec.step) =>
+                  Exec.exec_step (fst acc) s) steps (Exec.world0 n, nil))).
+Proof. exact @reachable_inv_steps. Qed.
+Print Assumptions REACH_reachable_inv_steps.
+
+(* C03 files written conform (for every history) ---------------- *)
+(* any reachable state, any open file in data mode with an encodable header: the file's first hdr_len *)
+(* bytes ARE encode_header of the in-memory header, and every longer prefix decodes (grammar decoder) to it *)
+Theorem REACH_unconditional_false :
+  ~
+         (forall (w : Exec.world) (s : Exec.step),
+          Proofs_Reach.world_inv w -> Proofs_Reach.world_inv (fst (Exec.exec_step w s))).
+Proof. exact @exec_step_preserves_inv_unconditional_false. Qed.
+Print Assumptions REACH_unconditional_false.
+
+(* the same for any world satisfying the invariant (also gives Proofs_Exec2.hdr_on_disk) *)
+Theorem C03_reachable_header_on_disk :
+  forall (n : Z) (cs : list cmd) (id : Z) (f : Exec.filest),
+         (1 <= n)%Z ->
+         run_ok (Exec.world0 n) cs = true ->
+         let w := run (Exec.world0 n) cs in
+         Base.znth (Exec.w_files w) id None = Some f ->
+         Exec.f_tainted f = false ->
+         Exec.f_indef f = false ->
+         wf_hdr (Exec.f_hdr f) = true ->
+         Disk.dk_read (Exec.disk_of w f) 0 (Header.hdr_len (Exec.f_hdr f)) =
+         Header.encode_header (Exec.f_hdr f) /\
+         (forall m : Z,
+          (Header.hdr_len (Exec.f_hdr f) <= m)%Z ->
+          exists dc : HeaderSpec.decoded,
+            HeaderSpec.decode (Disk.dk_read (Exec.disk_of w f) 0 m) = Some dc /\
+            HeaderSpec.dc_hdr dc = hdr_content (Exec.f_hdr f)).
+Proof. exact @reachable_header_on_disk. Qed.
+Print Assumptions C03_reachable_header_on_disk.
+
+(* any reachable state: layout_ok of the in-memory header, every variable begins at or after the header, *)
+(* the layout invariant lay_inv of the current layout *)
+Theorem C03_inv_header_on_disk :
+  forall (w : Exec.world) (id : Z) (f : Exec.filest),
+         Proofs_Reach.world_inv w ->
+         Base.znth (Exec.w_files w) id None = Some f ->
+         Exec.f_tainted f = false ->
+         Exec.f_indef f = false ->
+         wf_hdr (Exec.f_hdr f) = true ->
+         hdr_on_disk w f /\
+         (forall m : Z,
+          (Header.hdr_len (Exec.f_hdr f) <= m)%Z ->
+          HeaderSpec.decode (Disk.dk_read (Exec.disk_of w f) 0 m) = Some (decoded_of (Exec.f_hdr f)) /\
+          HeaderSpec.dc_hdr (decoded_of (Exec.f_hdr f)) = hdr_content (Exec.f_hdr f)).
+Proof. exact @inv_header_on_disk. Qed.
+Print Assumptions C03_inv_header_on_disk.
+
+(* close (data mode, no sync pending, header encodable and < 64 KiB) leaves a file that passes the *)
+(* validation of open: reopening what the model wrote is always inside the contract *)
+Theorem C03_reachable_layout_ok_all :
+  forall (n : Z) (cs : list cmd) (id : Z) (f : Exec.filest),
+         (1 <= n)%Z ->
+         run_ok (Exec.world0 n) cs = true ->
+         let w := run (Exec.world0 n) cs in
+         Base.znth (Exec.w_files w) id None = Some f ->
+         Exec.f_tainted f = false ->
+         Exec.f_indef f = false ->
+         HeaderSpec.layout_ok (Exec.f_hdr f) (Header.hdr_len (Exec.f_hdr f)) = true /\
+         (forall i : Z,
+          (0 <= i < Base.Zlen (Header.h_vars (Exec.f_hdr f)))%Z ->
+          (Header.hdr_len (Exec.f_hdr f) <=
+           Header.v_begin (Base.znth (Header.h_vars (Exec.f_hdr f)) i Proofs_Redef.dv))%Z) /\
+         (Header.h_vars (Exec.f_hdr f) <> nil -> lay_inv (t3of (Exec.f_hdr f)) (Exec.f_lay f)).
+Proof. exact @reachable_layout_ok_all. Qed.
+Print Assumptions C03_reachable_layout_ok_all.
+
+(* enddef (first one and after redef) preserves the invariant; afterwards the file is in data mode *)
+Theorem C03_inv_close_open_ok :
+  forall (w : Exec.world) (id : Z) (f : Exec.filest) (mode : Z),
+         Proofs_Reach.world_inv w ->
+         Base.znth (Exec.w_files w) id None = Some f ->
+         Exec.f_tainted f = false ->
+         Exec.f_indef f = false ->
+         (negb (Exec.f_rdonly f) && Exec.f_indep f)%bool = false ->
+         wf_hdr (Exec.f_hdr f) = true ->
+         (Header.hdr_len (Exec.f_hdr f) <= 65536)%Z ->
+         Exec.do_close w id f = Some (close_world w id f, close_obs w f) /\
+         Proofs_Reach.world_inv (close_world w id f) /\
+         Proofs_Reach.op_ok (close_world w id f) (Exec.OOpen (Exec.f_slot f) mode) = true.
+Proof. exact @inv_close_open_ok. Qed.
+Print Assumptions C03_inv_close_open_ok.
+
+(* numrecs (C03 / C16 / C19 as fits) ---------------- *)
+(* the on-disk header follows the in-memory header through every numrecs agreement *)
+Theorem C03_do_enddef_inv :
+  forall (w : Exec.world) (id : Z) (f : Exec.filest) (ea : Header.enddef_args)
+           (w' : Exec.world) (rc : Z),
+         Proofs_Reach.world_inv w ->
+         Base.znth (Exec.w_files w) id None = Some f ->
+         Exec.f_tainted f = false ->
+         Exec.do_enddef w id f ea = Some (w', rc) ->
+         Proofs_Reach.world_inv w' /\
+         (exists f1 : Exec.filest,
+            Base.znth (Exec.w_files w') id None = Some f1 /\
+            Exec.f_slot f1 = Exec.f_slot f /\
+            Exec.f_tainted f1 = false /\
+            (rc = Gen_consts.NC_NOERR ->
+             Exec.f_indef f = true ->
+             Exec.f_indef f1 = false /\ Exec.f_indep f1 = false /\ Exec.f_rdonly f1 = Exec.f_rdonly f) /\
+            (Exec.f_indef f = false -> f1 = f)).
+Proof. exact @do_enddef_inv. Qed.
+Print Assumptions C03_do_enddef_inv.
+
+Theorem REACH_coll_numrecs_sync_inv :
+  forall (w : Exec.world) (id : Z) (f : Exec.filest) (news : list (option Z)),
+         Proofs_Reach.world_inv w ->
+         Base.znth (Exec.w_files w) id None = Some f ->
+         Exec.f_tainted f = false ->
+         Exec.f_indef f = false ->
+         Exec.f_indep f = false ->
+         (0 < Exec.num_rec_vars (Exec.f_hdr f))%Z ->
+         Proofs_Reach.world_inv (Exec.coll_numrecs_sync w id f news).
+Proof. exact @coll_numrecs_sync_inv. Qed.
+Print Assumptions REACH_coll_numrecs_sync_inv.
+
+Theorem REACH_sync_all_inv :
+  forall (w : Exec.world) (id : Z) (f : Exec.filest),
+         Proofs_Reach.world_inv w ->
+         Base.znth (Exec.w_files w) id None = Some f ->
+         Exec.f_tainted f = false ->
+         Exec.f_indef f = false ->
+         Proofs_Reach.world_inv (Exec.sync_numrecs_all w id f) /\
+         (exists f1 : Exec.filest,
+            Base.znth (Exec.w_files (Exec.sync_numrecs_all w id f)) id None = Some f1 /\
+            Exec.f_slot f1 = Exec.f_slot f /\
+            Exec.f_tainted f1 = false /\
+            Exec.f_indef f1 = false /\
+            Exec.f_indep f1 = Exec.f_indep f /\
+            Exec.f_rdonly f1 = Exec.f_rdonly f /\
+            Forall (fun r : Exec.rankst => Exec.rk_numrecs r = Header.h_numrecs (Exec.f_hdr f1))
+              (Exec.f_ranks f1)).
+Proof. exact @sync_all_inv. Qed.
+Print Assumptions REACH_sync_all_inv.
+
+(* findings (Examples, each proved by vm_compute) ---------------- *)
+(* (a) create with clobber on the slot of an open file breaks that file's header-on-disk *)
+Theorem REACH_disk_has_hdr_write_numrecs :
+  forall (d : Disk.disk) (h : Header.hdr) (n : Z),
+         wf_hdr h = true ->
+         wf_hdr (Header.set_numrecs h n) = true ->
+         Proofs_Reach.disk_has_hdr d h ->
+         Proofs_Reach.disk_has_hdr (Exec.write_numrecs_bytes d (Header.h_format h) n)
+           (Header.set_numrecs h n).
+Proof. exact @disk_has_hdr_write_numrecs. Qed.
+Print Assumptions REACH_disk_has_hdr_write_numrecs.
+
+(* (b) put with count shorter than start: start [0;-3] count [1] is accepted and overwrites the header *)
+Theorem REACH_cex_alias :
+  ~ Proofs_Reach.world_inv (run (Exec.world0 1) cex_alias_cs).
+Proof. exact @cex_alias_not_inv. Qed.
+Print Assumptions REACH_cex_alias.
+
+(* (c) create accepts format 3: the file written does not decode to the header in memory *)
+Theorem REACH_cex_put :
+  run_ok (Exec.world0 1) cex_put_cs = true /\
+         Proofs_Reach.step_ok (run (Exec.world0 1) cex_put_cs) cex_put_step = false /\
+         (let w := run (Exec.world0 1) cex_put_cs in
+          let w' := fst (Exec.exec_step w cex_put_step) in
+          map (fun o : Exec.obs => snd (fst o)) (snd (Exec.exec_step w cex_put_step)) =
+          Gen_consts.NC_NOERR :: nil /\
+          (exists f : Exec.filest,
+             Base.znth (Exec.w_files w') 0 None = Some f /\
+             Exec.f_tainted f = false /\
+             wf_hdr (Exec.f_hdr f) = true /\
+             Header.hdr_len (Exec.f_hdr f) = 96%Z /\
+             Header.l_begins (Exec.f_lay f) = 96%Z :: nil /\
+             Base.bytes_eqb (Disk.dk_read (Exec.disk_of w f) 0 96)
+               (Header.encode_header (Exec.f_hdr f)) = true /\
+             Base.bytes_eqb (Disk.dk_read (Exec.disk_of w' f) 0 96)
+               (Header.encode_header (Exec.f_hdr f)) = false)).
+Proof. exact @cex_put. Qed.
+Print Assumptions REACH_cex_put.
+
+(* (d) CDF-5 dimension 2^64 and CDF-1 numrecs 2^32 are accepted and read back as 0 *)
+Theorem REACH_cex_format :
+  let cs :=
+           CStep (Exec.SAll (Exec.OCreate 0 3 1))
+           :: CStep (Exec.SAll (Exec.ODefDim 0 (120%Z :: nil) 4))
+              :: CStep (Exec.SAll (Exec.ODefVar 0 (118%Z :: nil) 4 (0%Z :: nil)))
+                 :: CStep (Exec.SAll (Exec.OEnddef 0)) :: nil in
+         run_ok (Exec.world0 1) cs = true /\
+         (let w := run (Exec.world0 1) cs in
+          exists f : Exec.filest,
+            Base.znth (Exec.w_files w) 0 None = Some f /\
+            Exec.f_indef f = false /\
+            wf_hdr (Exec.f_hdr f) = false /\
+            map Header.v_begin (Header.h_vars (Exec.f_hdr f)) = 512%Z :: nil /\
+            option_map
+              (fun dc : HeaderSpec.decoded =>
+               map Header.v_begin (Header.h_vars (HeaderSpec.dc_hdr dc)))
+              (HeaderSpec.decode
+                 (Disk.dk_read (Exec.disk_of w f) 0 (Disk.dk_size (Exec.disk_of w f)))) =
+            Some (0%Z :: nil)).
+Proof. exact @cex_format. Qed.
+Print Assumptions REACH_cex_format.
+
+Theorem REACH_cex_dim_size :
+  let w :=
+           run (Exec.world0 1)
+             (CStep (Exec.SAll (Exec.OCreate 0 5 1))
+              :: CStep (Exec.SAll (Exec.ODefDim 0 (120%Z :: nil) 18446744073709551616))
+                 :: CStep (Exec.SAll (Exec.OEnddef 0)) :: nil) in
+         exists f : Exec.filest,
+           Base.znth (Exec.w_files w) 0 None = Some f /\
+           Exec.f_indef f = false /\
+           Exec.f_tainted f = false /\
+           wf_hdr (Exec.f_hdr f) = false /\
+           map Header.d_size (Header.h_dims (Exec.f_hdr f)) = 18446744073709551616%Z :: nil /\
+           option_map
+             (fun dc : HeaderSpec.decoded => map Header.d_size (Header.h_dims (HeaderSpec.dc_hdr dc)))
+             (HeaderSpec.decode (Disk.dk_read (Exec.disk_of w f) 0 (Disk.dk_size (Exec.disk_of w f)))) =
+           Some (0%Z :: nil).
+Proof. exact @cex_dim_size. Qed.
+Print Assumptions REACH_cex_dim_size.
+
+Theorem REACH_cex_numrecs :
+  let w :=
+           run (Exec.world0 1)
+             (CStep (Exec.SAll (Exec.OCreate 0 1 1))
+              :: CStep (Exec.SAll (Exec.ODefDim 0 (116%Z :: nil) 0))
+                 :: CStep (Exec.SAll (Exec.ODefVar 0 (118%Z :: nil) 1 (0%Z :: nil)))
+                    :: CStep (Exec.SAll (Exec.OEnddef 0))
+                       :: CStep
+                            (Exec.SAll
+                               (Exec.OPut 0 true
+                                  {|
+                                    Exec.ac_var := 0;
+                                    Exec.ac_form := Exec.FVar1 (Some (4294967295%Z :: nil));
+                                    Exec.ac_memt := 1;
+                                    Exec.ac_flex := false;
+                                    Exec.ac_buf := Exec.BTyped;
+                                    Exec.ac_seed := 1
+                                  |})) :: nil) in
+         exists f : Exec.filest,
+           Base.znth (Exec.w_files w) 0 None = Some f /\
+           Exec.f_indef f = false /\
+           Exec.f_tainted f = false /\
+           wf_hdr (Exec.f_hdr f) = false /\
+           Header.h_numrecs (Exec.f_hdr f) = 4294967296%Z /\
+           option_map (fun dc : HeaderSpec.decoded => Header.h_numrecs (HeaderSpec.dc_hdr dc))
+             (HeaderSpec.decode (Disk.dk_read (Exec.disk_of w f) 0 200)) = 
+           Some 0%Z.
+Proof. exact @cex_numrecs. Qed.
+Print Assumptions REACH_cex_numrecs.
